@@ -302,15 +302,54 @@ def decide(lhs, rhs, dom, seed=0, budget_s=15.0, funcs=None):
                     return dict(verdict='refuted', point={str(s_): pt[s_] for s_ in syms}, residual_value=v, residual=str(res)[:300], seconds=0.0)
     except Exception:
         pass
-    try:
-        # sound under the declared symbol assumptions (no force): split logs of factored rational arguments
-        t0 = time.time()
-        r = cas._with_timeout(min(10.0, budget_s / 2), lambda e: sp.expand(_factor_logs(e)), sp.sympify(lhs) - sp.sympify(rhs))
-        if r is not None and r == 0:
-            return dict(verdict='discharged', how='factor-logs', seconds=round(time.time() - t0, 3))
-    except Exception:
-        pass
+    res0 = sp.sympify(lhs) - sp.sympify(rhs)
+    if res0.has(sp.log):
+        try:
+            # sound under the declared symbol assumptions (no force): split logs of factored rational arguments
+            t0 = time.time()
+            r = cas._with_timeout(min(10.0, budget_s / 2), lambda e: sp.expand(_factor_logs(e)), res0)
+            if r is not None and r == 0:
+                return dict(verdict='discharged', how='factor-logs', seconds=round(time.time() - t0, 3))
+        except Exception:
+            pass
+    if any(p_.exp.is_Rational and p_.exp.q == 2 for p_ in res0.atoms(sp.Pow)):
+        try:
+            t0 = time.time()
+            # a packed identity sum_i c_i (g_i - w_i) is decided entry by entry (it is linear in the c_i)
+            cs = sorted([s_ for s_ in res0.free_symbols if s_.name.startswith('c_')], key=lambda s_: s_.name)
+            parts = [res0.subs({c_: (1 if c_ == ci else 0) for c_ in cs}) for ci in cs] if cs else [res0]
+            r = cas._with_timeout(min(30.0, budget_s), lambda ps: all(p_ == 0 or _radicals_vanish(p_) for p_ in ps), parts)
+            if r:
+                return dict(verdict='discharged', how='radical-abstraction', seconds=round(time.time() - t0, 3))
+        except Exception:
+            pass
     return decide_identity(lhs, rhs, dom, seed=seed, budget_s=budget_s, funcs=funcs)
+
+
+def _radicals_vanish(res):
+    """sound strategy for identities with square roots of polynomials: every sqrt(A) (A expanded, so that equal
+    radicands are recognised) becomes a fresh positive t with the relation t^2 = A; the numerator of the residual must
+    reduce to 0 modulo these relations.  True = identity proved; None = does not apply / not proved."""
+    pows = [p_ for p_ in res.atoms(sp.Pow) if p_.exp.is_Rational and p_.exp.q == 2]
+    if not pows:
+        return None
+    rad, sub = {}, {}
+    for p_ in pows:
+        if p_.base.atoms(sp.Pow) and any(q_.exp.is_Rational and q_.exp.q == 2 for q_ in p_.base.atoms(sp.Pow)):
+            return None                 # nested radicals: not handled
+        key = sp.expand(p_.base)
+        t = rad.setdefault(key, sp.Symbol('t_rad%d' % len(rad), positive=True))
+        sub[p_] = t ** p_.exp.p
+    num, _ = sp.fraction(sp.together(res.xreplace(sub)))
+    num = sp.expand(num)
+    for key, t in rad.items():
+        if not num.has(t):
+            continue
+        new = 0
+        for (k_,), coeff in sp.Poly(num, t).terms():
+            new += coeff * key ** (k_ // 2) * t ** (k_ % 2)
+        num = sp.expand(new)
+    return True if num == 0 else None
 
 
 def _factor_logs(e):
